@@ -8,7 +8,9 @@
   Part B (uses the division equation as the named hypothesis `DivSpec`): ideal membership.
 -/
 import Mathlib.RingTheory.Ideal.Span
+import Mathlib.RingTheory.Ideal.Quotient.Defs
 import Algobra.Proofs.BPolyRefine
+import Algobra.Proofs.Order
 import Algobra.Proofs.Effects
 
 namespace Algobra
@@ -574,6 +576,1274 @@ theorem isReducedQ_idem {id id' : Ideal α} {b : Bool} (h : id.isReducedQ F o = 
   cases b
   · exact isReducedQ_of_neg_one hf
   · exact isReducedQ_of_one hf
+
+/-! ## Part A.4 : the flag invariant -/
+
+variable (F o)
+
+/-- `Derived g0 g` : the list `g` results from `g0` by the library's own basis transformations
+    (normalising all generators, the removal loop of `MinimizeBasis`, the replacement loop of
+    `ReduceBasis`) -/
+inductive Derived : List (BPoly α) → List (BPoly α) → Prop
+  | refl (g : List (BPoly α)) : Derived g g
+  | norm {a b : List (BPoly α)} : Derived a b → Derived a (b.map (normalize F o))
+  | minim {a b : List (BPoly α)} : Derived a b → Derived a (minimized F o b)
+  | red {a b c : List (BPoly α)} : Derived a b → reduceLoop F o b = some c → Derived a c
+
+/-- What the three cached flags of an ideal object mean IN THE MODEL (provable invariant):
+    * a positive flag implies the weaker positive flags;
+    * a negative Gröbner flag is the un-cached decision on the current generators;
+    * a positive Gröbner flag: some ancestor list passed the S-pair test and the current list was
+      obtained from it by the library's own transformations;
+    * a negative minimality flag: not a Gröbner basis, or the current generators are the normalised
+      ones and some leading term is divisible by another;
+    * a negative reducedness flag: not minimal, or the un-cached decision on the current generators. -/
+structure FlagsOK (id : Ideal α) : Prop where
+  min_imp : id.isMinimal = 1 → id.isGroebner = 1
+  red_imp : id.isReduced = 1 → id.isMinimal = 1
+  gro_neg : id.isGroebner = -1 → decideGroebner F o id.gens = some false
+  gro_pos : id.isGroebner = 1 → ∃ g0, decideGroebner F o g0 = some true ∧ Derived F o g0 id.gens
+  min_neg : id.isMinimal = -1 → id.isGroebner = -1 ∨ (id.isGroebner = 1 ∧
+      ∃ g0, id.gens = g0.map (normalize F o) ∧ decideMinimal F o g0 = false)
+  red_neg : id.isReduced = -1 → id.isMinimal = -1 ∨
+      (id.isMinimal = 1 ∧ decideReduced F o id.gens = some false)
+
+variable {F o}
+
+/-- a fresh ideal (`NewIdeal`: flags 0, 0, 0) satisfies the invariant -/
+theorem FlagsOK.fresh (gens : List (BPoly α)) : FlagsOK F o { gens := gens } := by
+  constructor <;> intro h <;> simp at h
+
+theorem FlagsOK.isGroebnerQ {id id' : Ideal α} {b : Bool} (H : FlagsOK F o id)
+    (h : id.isGroebnerQ F o = some (id', b)) : FlagsOK F o id' := by
+  obtain ⟨rfl, hc⟩ := isGroebnerQ_spec h
+  rcases hc with ⟨h1, rfl⟩ | ⟨h1, rfl⟩ | ⟨h1, h2, hd⟩
+  · have : ({ id with isGroebner := if true then 1 else -1 } : Ideal α) = id := by
+      cases id; simp_all
+    rw [this]; exact H
+  · have : ({ id with isGroebner := if false then 1 else -1 } : Ideal α) = id := by
+      cases id; simp_all
+    rw [this]; exact H
+  · cases b
+    · refine ⟨fun hm => absurd (H.min_imp hm) h1, H.red_imp, fun _ => hd,
+        fun hc => (by simp at hc), fun _ => Or.inl rfl, H.red_neg⟩
+    · refine ⟨fun _ => rfl, H.red_imp, fun hc => (by simp at hc),
+        fun _ => ⟨id.gens, hd, Derived.refl _⟩, fun hm => ?_, H.red_neg⟩
+      rcases H.min_neg hm with h3 | ⟨h3, -⟩
+      · exact absurd h3 h2
+      · exact absurd h3 h1
+
+/-- after a positive `IsGroebner()` the flag is 1, after a negative one it is -1 -/
+theorem isGroebnerQ_flag {id id' : Ideal α} {b : Bool} (h : id.isGroebnerQ F o = some (id', b)) :
+    id'.isGroebner = if b then 1 else -1 := (Effects.isGroebnerQ_frame F o h).2.2.2.1
+
+theorem FlagsOK.minimizeBasis {id id' : Ideal α} {res : Except Kind Unit} (H : FlagsOK F o id)
+    (h : id.minimizeBasis F o = some (id', res)) : FlagsOK F o id' := by
+  obtain ⟨id1, b, hq, hc⟩ := minimizeBasis_spec h
+  have H1 := H.isGroebnerQ hq
+  have hf := isGroebnerQ_flag hq
+  rcases hc with ⟨rfl, rfl, -⟩ | ⟨rfl, -, rfl⟩
+  · exact H1
+  · simp only [if_true] at hf
+    refine ⟨fun _ => hf, fun _ => rfl, fun hc => ?_, fun _ => ?_, fun hc => (by simp at hc),
+      fun hc => ?_⟩
+    · simp only at hc; rw [hf] at hc; simp at hc
+    · obtain ⟨g0, hg0, hd⟩ := H1.gro_pos hf
+      exact ⟨g0, hg0, Derived.minim hd⟩
+    · simp only at hc
+      split at hc <;> simp at hc
+
+/-- on a (then) positively flagged object `MinimizeBasis()` sets `isMinimal = 1` -/
+theorem minimizeBasis_flag {id id' : Ideal α} {res : Except Kind Unit}
+    (h : id.minimizeBasis F o = some (id', res)) :
+    (res = .error .inputValue ∧ id'.isGroebner = -1) ∨
+    (res = .ok () ∧ id'.isGroebner = 1 ∧ id'.isMinimal = 1) := by
+  obtain ⟨id1, b, hq, hc⟩ := minimizeBasis_spec h
+  have hf := isGroebnerQ_flag hq
+  rcases hc with ⟨rfl, rfl, rfl⟩ | ⟨rfl, rfl, rfl⟩
+  · exact Or.inl ⟨rfl, hf⟩
+  · exact Or.inr ⟨rfl, hf, rfl⟩
+
+/-- `IsMinimal()` does not touch the reducedness flag -/
+theorem isMinimalQ_isReduced {id id' : Ideal α} {b : Bool} (h : id.isMinimalQ F o = some (id', b)) :
+    id'.isReduced = id.isReduced := by
+  rcases isMinimalQ_spec h with ⟨_, rfl, _⟩ | ⟨_, rfl, _⟩ | ⟨_, _, id1, bg, hq, h3⟩
+  · rfl
+  · rfl
+  · have := (Effects.isGroebnerQ_frame F o hq).2.2.1
+    rcases h3 with ⟨_, _, rfl⟩ | ⟨_, _, rfl⟩ <;> exact this
+
+theorem FlagsOK.isMinimalQ {id id' : Ideal α} {b : Bool} (H : FlagsOK F o id)
+    (h : id.isMinimalQ F o = some (id', b)) : FlagsOK F o id' := by
+  rcases isMinimalQ_spec h with ⟨_, rfl, _⟩ | ⟨_, rfl, _⟩ | ⟨h1, h2, id1, bg, hq, h3⟩
+  · exact H
+  · exact H
+  · have H1 := H.isGroebnerQ hq
+    have hf := isGroebnerQ_flag hq
+    obtain ⟨hg, hm, hr, -⟩ := Effects.isGroebnerQ_frame F o hq
+    rw [← hm] at h1 h2
+    rcases h3 with ⟨rfl, rfl, rfl⟩ | ⟨rfl, hb, rfl⟩
+    · refine ⟨fun hc => (by simp at hc), fun hc => absurd (H1.red_imp hc) h1, H1.gro_neg,
+        H1.gro_pos, fun _ => Or.inl hf, fun _ => Or.inl rfl⟩
+    · simp only [if_true] at hf
+      refine ⟨fun _ => hf, fun hc => absurd (H1.red_imp hc) h1,
+        fun hc => ?_, fun _ => ?_, fun hc => ?_, fun hc => ?_⟩
+      · simp only at hc; rw [hf] at hc; simp at hc
+      · obtain ⟨g0, hg0, hd⟩ := H1.gro_pos hf
+        exact ⟨g0, hg0, Derived.norm hd⟩
+      · refine Or.inr ⟨hf, id1.gens, rfl, ?_⟩
+        simp only at hc
+        cases b
+        · exact hb.symm
+        · simp at hc
+      · rcases H1.red_neg hc with h3 | ⟨h3, -⟩
+        · exact absurd h3 h2
+        · exact absurd h3 h1
+
+theorem FlagsOK.reduceBasis {id id' : Ideal α} {res : Except Kind Unit} (H : FlagsOK F o id)
+    (h : id.reduceBasis F o = some (id', res)) : FlagsOK F o id' := by
+  obtain ⟨id1, bg, hq, hc⟩ := reduceBasis_spec h
+  have H1 := H.isGroebnerQ hq
+  have hf := isGroebnerQ_flag hq
+  rcases hc with ⟨rfl, rfl, -⟩ | ⟨rfl, -, idm, gens, hM, hl, rfl⟩
+  · exact H1
+  · simp only [if_true] at hf
+    -- the intermediate object is flagged Gröbner and minimal and satisfies the invariant
+    have hm : FlagsOK F o idm ∧ idm.isGroebner = 1 ∧ idm.isMinimal = 1 := by
+      by_cases hmin : id1.isMinimal = 1
+      · rw [if_neg (by simpa using hmin)] at hM
+        cases hM; exact ⟨H1, hf, hmin⟩
+      · rw [if_pos hmin] at hM
+        cases hmb : id1.minimizeBasis F o with
+        | none => rw [hmb] at hM; cases hM
+        | some pr =>
+          obtain ⟨im, rr⟩ := pr
+          rw [hmb] at hM
+          simp only [Option.map_some, Option.some.injEq] at hM
+          subst hM
+          refine ⟨H1.minimizeBasis hmb, ?_⟩
+          rcases minimizeBasis_flag hmb with ⟨-, h3⟩ | ⟨-, h3, h4⟩
+          · have := Effects.minimizeBasis_keeps_flag F o hf hmb
+            rw [this] at h3; simp at h3
+          · exact ⟨h3, h4⟩
+    obtain ⟨Hm, hg1, hm1⟩ := hm
+    refine ⟨fun _ => hg1, fun _ => hm1, fun hc => ?_, fun _ => ?_, fun hc => ?_,
+      fun hc => (by simp at hc)⟩
+    · simp only at hc; rw [hg1] at hc; simp at hc
+    · obtain ⟨g0, hg0, hd⟩ := Hm.gro_pos hg1
+      exact ⟨g0, hg0, Derived.red hd hl⟩
+    · simp only at hc; rw [hm1] at hc; simp at hc
+
+theorem FlagsOK.isReducedQ {id id' : Ideal α} {b : Bool} (H : FlagsOK F o id)
+    (h : id.isReducedQ F o = some (id', b)) : FlagsOK F o id' := by
+  rcases isReducedQ_spec h with ⟨_, rfl, _⟩ | ⟨_, rfl, _⟩ | ⟨h1, h2, id1, bm, hq, h3⟩
+  · exact H
+  · exact H
+  · have H1 := H.isMinimalQ hq
+    have hf := isMinimalQ_flag hq
+    rcases h3 with ⟨rfl, rfl, rfl⟩ | ⟨rfl, hb, rfl⟩
+    · exact ⟨H1.min_imp, fun hc => (by simp at hc), H1.gro_neg, H1.gro_pos, H1.min_neg,
+        fun _ => Or.inl hf⟩
+    · simp only [if_true] at hf
+      refine ⟨H1.min_imp, fun _ => hf, H1.gro_neg, H1.gro_pos, H1.min_neg, fun hc => ?_⟩
+      refine Or.inr ⟨hf, ?_⟩
+      simp only at hc
+      cases b
+      · exact hb
+      · simp at hc
+
+theorem decideGroebner_of_buchberger {fuel : Nat} {gens G : List (BPoly α)}
+    (h : buchberger F o fuel gens = some G) : decideGroebner F o G = some true := by
+  unfold decideGroebner
+  rw [buchberger_spairs_zero h]; rfl
+
+theorem FlagsOK.groebnerBasis {id gb : Ideal α} (H : FlagsOK F o id)
+    (h : id.groebnerBasis F o = some gb) : FlagsOK F o gb := by
+  rcases groebnerBasis_spec h with ⟨-, rfl⟩ | ⟨-, G, hG, rfl⟩
+  · exact H
+  · refine ⟨fun _ => rfl, fun hc => (by simp at hc), fun hc => (by simp at hc),
+      fun _ => ⟨G, decideGroebner_of_buchberger hG, Derived.refl _⟩,
+      fun hc => (by simp at hc), fun hc => (by simp at hc)⟩
+
+/-- the state-changing public methods of an ideal object (`Copy()` returns an equal object) -/
+inductive IdealOp where
+  | isGroebner | isMinimal | isReduced | minimizeBasis | reduceBasis | groebnerBasis | copy
+
+variable (F o) in
+/-- the ideal object after the call (`none` = the model ran out of fuel) -/
+def IdealOp.apply : IdealOp → Ideal α → Option (Ideal α)
+  | .isGroebner, id => (id.isGroebnerQ F o).map (·.1)
+  | .isMinimal, id => (id.isMinimalQ F o).map (·.1)
+  | .isReduced, id => (id.isReducedQ F o).map (·.1)
+  | .minimizeBasis, id => (id.minimizeBasis F o).map (·.1)
+  | .reduceBasis, id => (id.reduceBasis F o).map (·.1)
+  | .groebnerBasis, id => id.groebnerBasis F o
+  | .copy, id => some id
+
+variable (F o) in
+def IdealOp.run : List IdealOp → Ideal α → Option (Ideal α)
+  | [], id => some id
+  | op :: ops, id => (op.apply F o id).bind (IdealOp.run ops)
+
+theorem FlagsOK.apply {id id' : Ideal α} (op : IdealOp) (H : FlagsOK F o id)
+    (h : op.apply F o id = some id') : FlagsOK F o id' := by
+  cases op <;> simp only [IdealOp.apply, Option.map_eq_some_iff, Prod.exists, exists_and_right,
+    exists_eq_right] at h
+  · obtain ⟨b, h⟩ := h; exact H.isGroebnerQ h
+  · obtain ⟨b, h⟩ := h; exact H.isMinimalQ h
+  · obtain ⟨b, h⟩ := h; exact H.isReducedQ h
+  · obtain ⟨b, h⟩ := h; exact H.minimizeBasis h
+  · obtain ⟨b, h⟩ := h; exact H.reduceBasis h
+  · exact H.groebnerBasis h
+  · cases h; exact H
+
+/-- the invariant holds after every sequence of calls on an object created by `NewIdeal` -/
+theorem FlagsOK.run {id id' : Ideal α} (ops : List IdealOp) (H : FlagsOK F o id)
+    (h : IdealOp.run F o ops id = some id') : FlagsOK F o id' := by
+  induction ops generalizing id with
+  | nil => simp only [IdealOp.run, Option.some.injEq] at h; subst h; exact H
+  | cons op ops ih =>
+    simp only [IdealOp.run] at h
+    cases ha : op.apply F o id with
+    | none => rw [ha] at h; cases h
+    | some id1 =>
+      rw [ha] at h
+      exact ih (H.apply op ha) h
+
+/-! ## Part A.5 : errors of the transformations -/
+
+/-- `MinimizeBasis()` reports an error exactly when `IsGroebner()` answers `false`; the error is
+    `InputValue` and the object is the one `IsGroebner()` left behind (same generators) -/
+theorem minimizeBasis_error_iff {id id' : Ideal α} {k : Kind} :
+    id.minimizeBasis F o = some (id', .error k) ↔
+      id.isGroebnerQ F o = some (id', false) ∧ k = .inputValue := by
+  constructor
+  · intro h
+    obtain ⟨id1, b, hq, hc⟩ := minimizeBasis_spec h
+    rcases hc with ⟨rfl, rfl, he⟩ | ⟨_, he, _⟩
+    · cases he; exact ⟨hq, rfl⟩
+    · cases he
+  · rintro ⟨hq, rfl⟩
+    exact minimizeBasis_of_isGroebnerQ_false hq
+
+theorem reduceBasis_of_isGroebnerQ_false {id id1 : Ideal α}
+    (hq : id.isGroebnerQ F o = some (id1, false)) :
+    id.reduceBasis F o = some (id1, .error .inputValue) := by
+  unfold Ideal.reduceBasis; rw [hq]
+
+theorem reduceBasis_error_iff {id id' : Ideal α} {k : Kind} :
+    id.reduceBasis F o = some (id', .error k) ↔
+      id.isGroebnerQ F o = some (id', false) ∧ k = .inputValue := by
+  constructor
+  · intro h
+    obtain ⟨id1, b, hq, hc⟩ := reduceBasis_spec h
+    rcases hc with ⟨rfl, rfl, he⟩ | ⟨_, he, _⟩
+    · cases he; exact ⟨hq, rfl⟩
+    · cases he
+  · rintro ⟨hq, rfl⟩
+    exact reduceBasis_of_isGroebnerQ_false hq
+
+/-! ## Part A.6 : `minimizeLoop` and the replacement loop of `ReduceBasis` -/
+
+theorem minimizeLoop_sublist (fuel i : Nat) (gens lts : List (BPoly α)) :
+    (minimizeLoop F o fuel i gens lts).Sublist gens := by
+  induction fuel generalizing i gens lts with
+  | zero => exact List.Sublist.refl _
+  | succ n ih =>
+    rw [minimizeLoop]
+    split
+    · exact List.Sublist.refl _
+    · split
+      · exact (ih i _ _).trans (List.eraseIdx_sublist _ _)
+      · exact ih (i + 1) gens lts
+
+variable (F o) in
+/-- `MinTrace gens lts final` : `final` results from `gens` by removing, one after the other,
+    generators whose leading term was, AT THE TIME OF REMOVAL, spanned by the leading terms of the
+    other generators still present (`lts` is kept in step with `gens`) -/
+inductive MinTrace : List (BPoly α) → List (BPoly α) → List (BPoly α) → Prop
+  | done (gens lts : List (BPoly α)) : MinTrace gens lts gens
+  | drop {gens lts final : List (BPoly α)} (i : Nat) (hi : i < gens.length)
+      (h : spannedByOthers F o lts i = true) :
+      MinTrace (gens.eraseIdx i) (lts.eraseIdx i) final → MinTrace gens lts final
+
+theorem minimizeLoop_trace (fuel i : Nat) (gens lts : List (BPoly α)) :
+    MinTrace F o gens lts (minimizeLoop F o fuel i gens lts) := by
+  induction fuel generalizing i gens lts with
+  | zero => exact MinTrace.done _ _
+  | succ n ih =>
+    rw [minimizeLoop]
+    split
+    · exact MinTrace.done _ _
+    · rename_i hi
+      split
+      · rename_i hsp
+        exact MinTrace.drop i (by omega) hsp (ih i _ _)
+      · exact ih (i + 1) gens lts
+
+theorem minimized_sublist (gens : List (BPoly α)) :
+    (minimized F o gens).Sublist (gens.map (normalize F o)) :=
+  minimizeLoop_sublist _ _ _ _
+
+theorem minimized_trace (gens : List (BPoly α)) :
+    MinTrace F o (gens.map (normalize F o)) ((gens.map (normalize F o)).map (lt F o))
+      (minimized F o gens) :=
+  minimizeLoop_trace _ _ _ _
+
+/-- invariant rule for the replacement loop of `ReduceBasis()` -/
+theorem reduceLoop_induct (P : List (BPoly α) → Prop) {g0 g' : List (BPoly α)}
+    (h : reduceLoop F o g0 = some g') (h0 : P g0)
+    (hstep : ∀ g i r, P g → g.length = g0.length → i < g0.length →
+      remByOthers F o g i = some r → P (g.set i r)) : P g' ∧ g'.length = g0.length := by
+  unfold reduceLoop at h
+  have key : ∀ (l : List Nat) (g : List (BPoly α)), (∀ i ∈ l, i < g0.length) → P g →
+      g.length = g0.length →
+      l.foldl (fun acc i => match acc with
+        | none => none
+        | some gens => (remByOthers F o gens i).map fun r => gens.set i r) (some g) = some g' →
+      P g' ∧ g'.length = g0.length := by
+    intro l
+    induction l with
+    | nil =>
+      intro g _ hP hlen hf
+      simp only [List.foldl_nil, Option.some.injEq] at hf
+      subst hf; exact ⟨hP, hlen⟩
+    | cons i t ih =>
+      intro g hl hP hlen hf
+      rw [List.foldl_cons] at hf
+      cases hr : remByOthers F o g i with
+      | none =>
+        simp only [hr, Option.map_none] at hf
+        have : ∀ (t : List Nat), t.foldl (fun acc i => match acc with
+            | none => none
+            | some gens => (remByOthers F o gens i).map fun r => gens.set i r)
+            (none : Option (List (BPoly α))) = none := by
+          intro t; induction t with
+          | nil => rfl
+          | cons _ _ ih => rw [List.foldl_cons]; exact ih
+        rw [this] at hf; cases hf
+      | some r =>
+        simp only [hr, Option.map_some] at hf
+        exact ih (g.set i r) (fun j hj => hl j (List.mem_cons_of_mem _ hj))
+          (hstep g i r hP hlen (hl i List.mem_cons_self) hr) (by rw [List.length_set, hlen]) hf
+  exact key _ g0 (fun i hi => List.mem_range.1 hi) h0 rfl h
+
+/-- the replacement loop keeps the number of generators -/
+theorem reduceLoop_length {g0 g' : List (BPoly α)} (h : reduceLoop F o g0 = some g') :
+    g'.length = g0.length :=
+  (reduceLoop_induct (fun _ => True) h trivial (fun _ _ _ _ _ _ _ => trivial)).2
+
+/-! ## Part A.7 : `times`, `pow`, `ofMap` are `reduceIn` of the exact product / power / map -/
+
+/-- `r` is an output of `(*Polynomial).reduce` in the ring `R` -/
+def IsRed (R : Ring α) (r : BPoly α) : Prop := ∃ h, reduceIn R h = some r
+
+theorem times_eq (R : Ring α) (f g : BPoly α) :
+    times R f g = match mulNoReduce R.F f g with
+      | none => .error .overflow
+      | some h => .ok (reduceIn R h) := rfl
+
+theorem times_error_iff {R : Ring α} {f g : BPoly α} {k : Kind} :
+    times R f g = .error k ↔ mulNoReduce R.F f g = none ∧ k = .overflow := by
+  rw [times_eq]
+  cases mulNoReduce R.F f g with
+  | none => simp [eq_comm]
+  | some h => simp
+
+theorem times_ok_iff {R : Ring α} {f g : BPoly α} {r : Option (BPoly α)} :
+    times R f g = .ok r ↔ ∃ h, mulNoReduce R.F f g = some h ∧ reduceIn R h = r := by
+  rw [times_eq]
+  cases mulNoReduce R.F f g with
+  | none => simp
+  | some h => simp
+
+theorem times_isRed {R : Ring α} {f g r : BPoly α} (h : times R f g = .ok (some r)) :
+    IsRed R r := by
+  obtain ⟨h', _, hr⟩ := times_ok_iff.1 h
+  exact ⟨h', hr⟩
+
+theorem ofMap_eq (R : Ring α) (m : List (Deg × α)) :
+    ofMap R m = reduceIn R (m.foldl (fun acc (d, c) => if R.F.isZero c then acc else put acc d c) []) :=
+  rfl
+
+theorem ofMap_isRed {R : Ring α} {m : List (Deg × α)} {r : BPoly α} (h : ofMap R m = some r) :
+    IsRed R r := ⟨_, h⟩
+
+/-- one round of the square-and-multiply loop of `Pow`, spelled out -/
+theorem powLoop_succ (R : Ring α) (fuel n : Nat) (out g : BPoly α) :
+    powLoop R (fuel + 1) n out g =
+      if n = 0 then .ok (some out)
+      else match (if n % 2 = 1 then times R out g else .ok (some out)) with
+        | .error k => .error k
+        | .ok none => .ok none
+        | .ok (some o) =>
+          if n / 2 = 0 then .ok (some o)
+          else match times R g g with
+            | .error k => .error k
+            | .ok none => .ok none
+            | .ok (some g2) => powLoop R fuel (n / 2) o g2 := rfl
+
+/-- the only error of `Pow` is the exponent overflow of a multiplication -/
+theorem powLoop_error {R : Ring α} {fuel n : Nat} {out g : BPoly α} {k : Kind}
+    (h : powLoop R fuel n out g = .error k) : k = .overflow := by
+  induction fuel generalizing n out g with
+  | zero => simp [powLoop] at h
+  | succ m ih =>
+    rw [powLoop_succ] at h
+    split at h
+    · cases h
+    · split at h
+      · rename_i k' hk
+        cases h
+        split at hk
+        · exact (times_error_iff.1 hk).2
+        · cases hk
+      · cases h
+      · split at h
+        · cases h
+        · split at h
+          · rename_i k' hk; cases h; exact (times_error_iff.1 hk).2
+          · cases h
+          · exact ih h
+
+/-- every value of the loop is its start value or an output of `reduce` -/
+theorem powLoop_isRed {R : Ring α} {fuel n : Nat} {out g r : BPoly α}
+    (h : powLoop R fuel n out g = .ok (some r)) : r = out ∨ IsRed R r := by
+  induction fuel generalizing n out g with
+  | zero => simp [powLoop] at h
+  | succ m ih =>
+    rw [powLoop_succ] at h
+    split at h
+    · cases h; exact Or.inl rfl
+    · split at h
+      · cases h
+      · cases h
+      · rename_i o' ho
+        have ho' : o' = out ∨ IsRed R o' := by
+          split at ho
+          · exact Or.inr (times_isRed ho)
+          · cases ho; exact Or.inl rfl
+        split at h
+        · cases h; exact ho'
+        · split at h
+          · cases h
+          · cases h
+          · rcases ih h with rfl | hr
+            · exact ho'
+            · exact Or.inr hr
+
+theorem pow_eq (R : Ring α) (f : BPoly α) (n : Nat) :
+    pow R f n = match reduceIn R [((0, 0), R.F.one)] with
+      | some o => powLoop R 70 n o f
+      | none => .ok none := rfl
+
+theorem pow_error {R : Ring α} {f : BPoly α} {n : Nat} {k : Kind} (h : pow R f n = .error k) :
+    k = .overflow := by
+  rw [pow_eq] at h
+  split at h
+  · exact powLoop_error h
+  · cases h
+
+theorem pow_isRed {R : Ring α} {f r : BPoly α} {n : Nat} (h : pow R f n = .ok (some r)) :
+    IsRed R r := by
+  rw [pow_eq] at h
+  split at h
+  · rename_i o' ho
+    rcases powLoop_isRed h with rfl | hr
+    · exact ⟨_, ho⟩
+    · exact hr
+  · cases h
+
+/-! ## Part B : statements that use the division equation
+
+  The division theorem (`f = Σ qᵢ gᵢ + r`) is proved in Proofs/BPolyDiv.lean by another agent.
+  Here it enters as the explicit hypothesis `DivSpec L o Safe`, where `Safe ignore gs fuel f` is the
+  guard under which the equation is available for the run `quoRemLoop F o ignore gs fuel f …`
+  (no exponent wrap-around in `subWithShiftAndScale`, which the Go code does not check).
+  Everything that does not need the equation (well-formedness of quotients and remainder, word
+  size of the exponents, the ignored quotient stays zero) is proved here without guard. -/
+
+section PartB
+open AddMonoidAlgebra (single)
+variable {K : Type} [Field K] (L : Lawful F K)
+
+namespace Gb
+
+/-! ### B.0 unconditional facts about `quoRemLoop` -/
+
+theorem WF_subShiftScale' {f g : BPoly α} (i : Deg) {a : α} (hf : WF L f) (hg : CV L g)
+    (ha : L.valid a) : WF L (subShiftScale F f g i a) := by
+  have loop : ∀ (m : α → α), (∀ c, L.valid c → L.valid (m c)) → ∀ (g f : BPoly α), CV L g →
+      WF L f → WF L (g.foldl (fun acc (d, c) => if F.isZero c then acc
+        else decCoef F acc (w64 (d.1 + i.1), w64 (d.2 + i.2)) (m c)) f) := by
+    intro m hm g
+    induction g with
+    | nil => exact fun f _ hf => hf
+    | cons x t ih =>
+      intro f hg hf
+      rw [CV_cons] at hg
+      rw [List.foldl_cons]
+      apply ih _ hg.2
+      simp only
+      split
+      · exact hf
+      · exact WF_decCoef L hf _ (hm _ hg.1)
+  unfold subShiftScale
+  split
+  · exact hf
+  · split
+    · exact loop (fun c => c) (fun c hc => hc) g f hg hf
+    · exact loop (fun c => F.mul a c) (fun c hc => L.mul_valid a c ha hc) g f hg hf
+
+theorem lcQuot_valid' {p g : BPoly α} (hp : CV L p) (hg : CV L g) (o : Order) :
+    L.valid (lcQuot F o p g) := by
+  unfold lcQuot
+  have hlp := lc_valid L hp o
+  have hlg := lc_valid L hg o
+  simp only
+  split
+  · exact L.mul_valid _ _ hlp hlg
+  · by_cases h0 : L.embed (lc F o g) = 0
+    · rw [L.inv_none _ hlg h0]; exact L.zero_valid
+    · obtain ⟨i, e1, e2, _⟩ := L.inv_some _ hlg h0
+      rw [e1]; exact L.mul_valid _ _ hlp e2
+
+/-- the divisor found by `firstDiv` is a list element at a non-ignored index -/
+theorem firstDiv_mem {o : Order} {pLd : Deg} {ignore : Option Nat} {gs : List (BPoly α)} {n i : Nat}
+    {g : BPoly α} {dd : Deg} (h : firstDiv o pLd ignore gs n = some (i, g, dd)) :
+    g ∈ gs ∧ ignore ≠ some i ∧ subDegs pLd (ld o g) = some dd := by
+  induction gs generalizing n with
+  | nil => simp [firstDiv] at h
+  | cons x t ih =>
+    rw [firstDiv] at h
+    split at h
+    · obtain ⟨h1, h2, h3⟩ := ih h
+      exact ⟨List.mem_cons_of_mem _ h1, h2, h3⟩
+    · rename_i hign
+      split at h
+      · rename_i dd' hsd
+        simp only [Option.some.injEq, Prod.mk.injEq] at h
+        obtain ⟨rfl, rfl, rfl⟩ := h
+        refine ⟨List.mem_cons_self, ?_, hsd⟩
+        intro hc; rw [hc] at hign; simp at hign
+      · obtain ⟨h1, h2, h3⟩ := ih h
+        exact ⟨List.mem_cons_of_mem _ h1, h2, h3⟩
+
+theorem ld_bounded {o : Order} {p : BPoly α} (hp : Bounded p) :
+    (ld o p).1 < 2 ^ 64 ∧ (ld o p).2 < 2 ^ 64 := by
+  rcases ld_mem_or o p with h | h
+  · rw [h]; exact ⟨by norm_num, by norm_num⟩
+  · obtain ⟨x, hx, he⟩ := List.mem_map.1 h
+    rw [← he]; exact hp x hx
+
+/-- quotients and remainder are well-formed and the remainder has word-size exponents, whatever
+    happens to the exponents during the run (no guard needed) -/
+theorem quoRemLoop_wf {o : Order} {ignore : Option Nat} {gs : List (BPoly α)}
+    (hgs : ∀ g ∈ gs, CV L g) :
+    ∀ (fuel : Nat) (p : BPoly α) (qs : List (BPoly α)) (r : BPoly α) {qs' : List (BPoly α)}
+      {r' : BPoly α}, WF L p → (∀ q ∈ qs, WF L q) → WF L r →
+      quoRemLoop F o ignore gs fuel p qs r = some (qs', r') →
+      (∀ q ∈ qs', WF L q) ∧ WF L r' ∧ qs'.length = qs.length ∧
+      (Bounded p → Bounded r → Bounded r') ∧
+      (∀ k, ignore = some k → qs'[k]? = qs[k]?) := by
+  intro fuel
+  induction fuel with
+  | zero => intro p qs r qs' r' _ _ _ h; simp [quoRemLoop] at h
+  | succ n ih =>
+    intro p qs r qs' r' hp hqs hr h
+    rw [quoRemLoop] at h
+    split at h
+    · simp only [Option.some.injEq, Prod.mk.injEq] at h
+      obtain ⟨rfl, rfl⟩ := h
+      exact ⟨hqs, hr, rfl, fun _ hb => hb, fun _ _ => rfl⟩
+    · simp only at h
+      split at h
+      · rename_i i g dd hfd
+        obtain ⟨hg, hign, -⟩ := firstDiv_mem hfd
+        have hgc := hgs g hg
+        have ht := lcQuot_valid' L hp.cv hgc o
+        have hq' : ∀ q ∈ qs.set i (incCoef F (qs.getD i []) dd (lcQuot F o p g)), WF L q := by
+          intro q hq
+          rcases List.mem_or_eq_of_mem_set hq with hq | rfl
+          · exact hqs q hq
+          · apply WF_incCoef L _ _ ht
+            rw [List.getD_eq_getElem?_getD]
+            cases hqi : qs[i]? with
+            | none => exact WF_nil L
+            | some q0 => exact hqs q0 (List.mem_of_getElem? hqi)
+        obtain ⟨c1, c2, c3, c4, c5⟩ := ih _ _ _ (WF_subShiftScale' L dd hp hgc ht) hq' hr h
+        refine ⟨c1, c2, by rw [c3, List.length_set], fun hb hrb =>
+          c4 (Bounded_subShiftScale dd _ hb) hrb, fun k hk => ?_⟩
+        rw [c5 k hk, List.getElem?_set_ne]
+        rintro rfl
+        exact hign hk
+      · have hr' : WF L (incCoef F r (ld o p) (coef F p (ld o p))) :=
+          WF_incCoef L hr _ (coef_valid L hp.cv _)
+        obtain ⟨c1, c2, c3, c4, c5⟩ := ih _ _ _ (WF_erase L hp _) hqs hr' h
+        refine ⟨c1, c2, c3, fun hb hrb => c4 ?_ ?_, c5⟩
+        · rw [Bounded_iff_KeysIn] at hb ⊢; exact KeysIn_erase hb _
+        · rw [Bounded_iff_KeysIn] at hrb ⊢
+          exact KeysIn_incCoef hrb (ld_bounded hb) _
+
+/-! ### B.1 `multNoReduce` with an arbitrary first factor -/
+
+theorem addDegs_some_noOvf {a b s : Deg} (hb : b.1 < 2 ^ 64 ∧ b.2 < 2 ^ 64)
+    (h : addDegs a b = some s) : NoOvf a b := by
+  unfold addDegs at h
+  simp only at h
+  split at h
+  · cases h
+  · rename_i hc
+    simp only [Bool.or_eq_true, decide_eq_true_eq, not_or, not_lt] at hc
+    unfold NoOvf
+    unfold w64 at hc
+    omega
+
+theorem mulInner_some_noOvf {df : Deg} {cf : α} {g : BPoly α} (hg : Bounded g)
+    {acc : Option (BPoly α)} {h' : BPoly α} (h : mulInner F df cf g acc = some h') :
+    ∀ dc ∈ g, NoOvf df dc.1 := by
+  induction g generalizing acc with
+  | nil => intro _ h; cases h
+  | cons x t ih =>
+    rw [Bounded_cons] at hg
+    rw [mulInner, List.foldl_cons] at h
+    intro dc hdc
+    rcases List.mem_cons.1 hdc with rfl | hdc
+    · cases hacc : acc with
+      | none =>
+        simp only [hacc] at h
+        rw [show (List.foldl _ none t) = mulInner F df cf t none from rfl, mulInner_none] at h
+        cases h
+      | some a =>
+        cases had : addDegs df dc.1 with
+        | none =>
+          simp only [hacc, had] at h
+          rw [show (List.foldl _ none t) = mulInner F df cf t none from rfl, mulInner_none] at h
+          cases h
+        | some s => exact addDegs_some_noOvf hg.1 had
+    · exact ih hg.2 h dc hdc
+
+theorem mulOuter_some_noOvf {f g : BPoly α} (hg : Bounded g) {acc : Option (BPoly α)}
+    {h' : BPoly α} (h : mulOuter F f g acc = some h') : ¬ Ovf f g := by
+  induction f generalizing acc with
+  | nil => rintro ⟨_, hx, _⟩; cases hx
+  | cons x t ih =>
+    rw [mulOuter, List.foldl_cons] at h
+    rintro ⟨a, ha, b, hb, hn⟩
+    rcases List.mem_cons.1 ha with rfl | ha
+    · cases hi : mulInner F a.1 a.2 g acc with
+      | none =>
+        simp only [hi] at h
+        rw [show (List.foldl _ none t) = mulOuter F t g none from rfl, mulOuter_none] at h
+        cases h
+      | some v => exact hn (mulInner_some_noOvf hg hi b hb)
+    · exact ih h ⟨a, ha, b, hb, hn⟩
+
+/-- the product is exact whenever `multNoReduce` succeeds and the SECOND factor has word-size
+    exponents (nothing is asked of the exponents of the first factor) -/
+theorem mulNoReduce_spec2 {f g h : BPoly α} (hf : CV L f) (hg : CV L g) (bg : Bounded g)
+    (hm : mulNoReduce F f g = some h) : WF L h ∧ toMv L h = toMv L f * toMv L g := by
+  rw [mulNoReduce_eq] at hm
+  have hno := mulOuter_some_noOvf bg hm
+  obtain ⟨h', e, w, t⟩ := mulNoReduce_some L hf hg hno
+  rw [mulNoReduce_eq, hm] at e
+  cases e
+  exact ⟨w, t⟩
+
+/-! ### B.2 `SPolynomial` -/
+
+theorem CV_one : CV L ([((0, 0), F.one)] : BPoly α) := (WF_one L).cv
+
+/-- the S-polynomial is a combination `a·f − b·g` (whatever the multipliers are) -/
+theorem sPoly_spec {o : Order} {f g s : BPoly α} (hf : CV L f) (hg : CV L g) (bf : Bounded f)
+    (bg : Bounded g) (h : sPoly F o f g = some s) :
+    WF L s ∧ Bounded s ∧ ∃ a b : AddMonoidAlgebra K (ℕ × ℕ), toMv L s = a * toMv L f - b * toMv L g := by
+  unfold sPoly at h
+  simp only at h
+  have hlcm : WF L (monomialLcm F o (lt F o f) (lt F o g)) := by
+    unfold monomialLcm
+    refine ⟨by simp, ?_⟩
+    intro dc hdc
+    simp only [List.mem_singleton] at hdc
+    subst hdc
+    exact ⟨L.one_valid, by simp only [L.embed_one]; exact one_ne_zero⟩
+  have hq : ∀ (t : BPoly α) (q : List (BPoly α)) (r : BPoly α), CV L t →
+      quoRemLoop F o none [lt F o t] 1000 (monomialLcm F o (lt F o f) (lt F o g)) [[]] [] = some (q, r) →
+      CV L (q.headD []) := by
+    intro t q r ht hq
+    obtain ⟨c1, -⟩ := quoRemLoop_wf L (gs := [lt F o t])
+      (fun x hx => by
+        simp only [List.mem_singleton] at hx; subst hx; exact (lt_spec L ht o).1.cv)
+      1000 _ [[]] [] hlcm
+      (fun q hq => by simp only [List.mem_singleton] at hq; subst hq; exact WF_nil L) (WF_nil L) hq
+    cases q with
+    | nil => exact CV_nil L
+    | cons a _ => exact (c1 a List.mem_cons_self).cv
+  split at h
+  · rename_i q1 r1 q2 r2 h1 h2
+    split at h
+    · rename_i a b ha hb
+      cases h
+      obtain ⟨wa, ta⟩ := mulNoReduce_spec2 L (hq f q1 r1 hf h1) hf bf ha
+      obtain ⟨wb, tb⟩ := mulNoReduce_spec2 L (hq g q2 r2 hg h2) hg bg hb
+      obtain ⟨ws, ts⟩ := sub_spec L wa wb.cv
+      refine ⟨ws, ?_, toMv L (q1.headD []), toMv L (q2.headD []), by rw [ts, ta, tb]⟩
+      have b1 := Bounded_mulNoReduce ha
+      have b2 := Bounded_mulNoReduce hb
+      rw [Bounded_iff_KeysIn] at b1 b2 ⊢
+      exact KeysIn_sub b1 b2
+    · cases h
+  · cases h
+
+end Gb
+
+/-! ### B.3 the hypotheses `DivSpec`, `RemSpec` -/
+
+/-- `Σ_i qs_i * gs_i` in `K[X,Y]` -/
+noncomputable def qdot (qs gs : List (BPoly α)) : AddMonoidAlgebra K (ℕ × ℕ) :=
+  (List.zipWith (fun q g => toMv L q * toMv L g) qs gs).sum
+
+/-- THE DIVISION EQUATION (hypothesis of Part B; proved in Proofs/BPolyDiv.lean):
+    whenever a run of `quoRemLoop` started with zero quotients and zero remainder on a well-formed
+    dividend and well-formed divisors returns `(qs, r)`, and the run satisfies the guard `Safe`
+    (no exponent wrap-around), then `f = Σ qᵢ gᵢ + r` in `K[X,Y]`. -/
+def DivSpec (o : Order) (Safe : Option Nat → List (BPoly α) → Nat → BPoly α → Prop) : Prop :=
+  ∀ (ignore : Option Nat) (gs : List (BPoly α)) (fuel : Nat) (f : BPoly α) (qs : List (BPoly α))
+    (r : BPoly α), WF L f → (∀ g ∈ gs, WF L g) → Safe ignore gs fuel f →
+    quoRemLoop F o ignore gs fuel f (gs.map fun _ => []) [] = some (qs, r) →
+    toMv L f = qdot L qs gs + toMv L r
+
+/-- THE REMAINDER PROPERTY (hypothesis; proved in Proofs/BPolyDiv.lean): no exponent of the
+    remainder is divisible by the leading exponent of a (non-ignored) divisor -/
+def RemSpec (o : Order) (Safe : Option Nat → List (BPoly α) → Nat → BPoly α → Prop) : Prop :=
+  ∀ (ignore : Option Nat) (gs : List (BPoly α)) (fuel : Nat) (f : BPoly α) (qs : List (BPoly α))
+    (r : BPoly α), WF L f → (∀ g ∈ gs, WF L g) → Safe ignore gs fuel f →
+    quoRemLoop F o ignore gs fuel f (gs.map fun _ => []) [] = some (qs, r) →
+    ∀ d ∈ keys r, ∀ (j : Nat) (g : BPoly α), gs[j]? = some g → ignore ≠ some j →
+      subDegs d (ld o g) = none
+
+/-- the ideal of `K[X,Y]` generated by the polynomials of a list -/
+noncomputable def spanOf (gs : List (BPoly α)) : _root_.Ideal (AddMonoidAlgebra K (ℕ × ℕ)) :=
+  Ideal.span ((toMv L) '' {g | g ∈ gs})
+
+theorem mem_spanOf {gs : List (BPoly α)} {g : BPoly α} (h : g ∈ gs) : toMv L g ∈ spanOf L gs :=
+  Ideal.subset_span ⟨g, h, rfl⟩
+
+theorem spanOf_le {gs : List (BPoly α)} {I : _root_.Ideal (AddMonoidAlgebra K (ℕ × ℕ))} :
+    spanOf L gs ≤ I ↔ ∀ g ∈ gs, toMv L g ∈ I := by
+  unfold spanOf
+  rw [Ideal.span_le]
+  constructor
+  · intro h g hg; exact h ⟨g, hg, rfl⟩
+  · rintro h _ ⟨g, hg, rfl⟩; exact h g hg
+
+theorem qdot_mem {I : _root_.Ideal (AddMonoidAlgebra K (ℕ × ℕ))} :
+    ∀ (qs gs : List (BPoly α)),
+      (∀ (j : Nat) (q g : BPoly α), qs[j]? = some q → gs[j]? = some g → toMv L q * toMv L g ∈ I) →
+      qdot L qs gs ∈ I := by
+  intro qs
+  induction qs with
+  | nil => intro gs _; simp [qdot]
+  | cons q qs ih =>
+    intro gs h
+    cases gs with
+    | nil => simp [qdot]
+    | cons g gs =>
+      unfold qdot
+      rw [List.zipWith_cons_cons, List.sum_cons]
+      refine I.add_mem (h 0 q g rfl rfl) (ih gs fun j q' g' hq hg => h (j + 1) q' g' ?_ ?_)
+      · simpa using hq
+      · simpa using hg
+
+theorem qdot_mem_spanOf (qs gs : List (BPoly α)) : qdot L qs gs ∈ spanOf L gs :=
+  qdot_mem L qs gs fun _ _ _ _ hg =>
+    Ideal.mul_mem_left _ _ (mem_spanOf L (List.mem_of_getElem? hg))
+
+/-! ### B.4 `GroebnerBasis()` generates the same ideal -/
+
+variable {L} {Safe : Option Nat → List (BPoly α) → Nat → BPoly α → Prop}
+
+variable (F) in
+/-- the guard holds for every division of an S-polynomial in one round over the list `gb` -/
+def RoundSafe (o : Order) (Safe : Option Nat → List (BPoly α) → Nat → BPoly α → Prop)
+    (gb : List (BPoly α)) : Prop :=
+  ∀ (i j : Nat) (_ : i < j) (hj : j < gb.length) (s : BPoly α),
+    sPoly F o (gb[i]'(by omega)) gb[j] = some s → Safe none gb divFuel s
+
+/-- the remainder of an S-polynomial of two list elements on division by the list is a
+    well-formed element of the ideal generated by the list -/
+theorem pairRem_spec (hdiv : DivSpec L o Safe) {gb : List (BPoly α)}
+    (hgb : ∀ g ∈ gb, WF L g ∧ Bounded g) {f g r : BPoly α} (hf : f ∈ gb) (hg : g ∈ gb)
+    (hsafe : ∀ s, sPoly F o f g = some s → Safe none gb divFuel s)
+    (h : PairRem F o gb f g r) : WF L r ∧ Bounded r ∧ toMv L r ∈ spanOf L gb := by
+  obtain ⟨s, qs, hs, hq⟩ := h
+  obtain ⟨ws, bs, a, b, ts⟩ := Gb.sPoly_spec L (hgb f hf).1.cv (hgb g hg).1.cv (hgb f hf).2
+    (hgb g hg).2 hs
+  obtain ⟨-, wr, -, br, -⟩ := Gb.quoRemLoop_wf L (fun x hx => (hgb x hx).1.cv) divFuel s _ [] ws
+    (fun q hq => by obtain ⟨_, _, rfl⟩ := List.mem_map.1 hq; exact WF_nil L) (WF_nil L) hq
+  have e := hdiv none gb divFuel s qs r ws (fun x hx => (hgb x hx).1) (hsafe s hs) hq
+  refine ⟨wr, br bs Bounded_nil, ?_⟩
+  have : toMv L r = toMv L s - qdot L qs gb := by rw [e, add_sub_cancel_left]
+  rw [this, ts]
+  exact (spanOf L gb).sub_mem
+    ((spanOf L gb).sub_mem (Ideal.mul_mem_left _ _ (mem_spanOf L hf))
+      (Ideal.mul_mem_left _ _ (mem_spanOf L hg)))
+    (qdot_mem_spanOf L qs gb)
+
+/-- invariant rule for `GroebnerBasis()` that also tells that the round happened inside the run -/
+theorem buchberger_induct' (P : List (BPoly α) → Prop) {fuel : Nat} {gens G : List (BPoly α)}
+    (h : buchberger F o fuel gens = some G) (h0 : P gens)
+    (hstep : ∀ gb news, P gb → sPairRems F o gb = some news → (gb ++ news) <+: G →
+      P (gb ++ news)) : P G := by
+  induction fuel generalizing gens with
+  | zero => simp [buchberger] at h
+  | succ n ih =>
+    rw [buchberger] at h
+    split at h
+    · cases h
+    · split at h
+      · cases h
+      · cases h; exact h0
+      · rename_i news hs
+        obtain ⟨e, he⟩ := buchberger_extends h
+        exact ih h (hstep _ _ h0 hs ⟨e, he.symm⟩)
+
+/-- C11-3: the list returned by `GroebnerBasis()` generates the same ideal of `K[X,Y]` as the input
+    generators (given the division equation for every division of the run) -/
+theorem buchberger_same_ideal (hdiv : DivSpec L o Safe) {fuel : Nat} {gens G : List (BPoly α)}
+    (hgens : ∀ g ∈ gens, WF L g ∧ Bounded g) (h : buchberger F o fuel gens = some G)
+    (hsafe : ∀ gb, gens <+: gb → gb <+: G → RoundSafe F o Safe gb) :
+    (∀ g ∈ G, WF L g ∧ Bounded g) ∧ spanOf L G = spanOf L gens := by
+  have := buchberger_induct'
+    (P := fun gb => gens <+: gb ∧ (∀ g ∈ gb, WF L g ∧ Bounded g) ∧ spanOf L gb = spanOf L gens)
+    h ⟨List.prefix_refl _, hgens, rfl⟩ ?_
+  · exact this.2
+  · rintro gb news ⟨hpre, hgb, hspan⟩ hs hpre'
+    have hgbG : gb <+: G := (List.prefix_append gb news).trans hpre'
+    have hnews : ∀ r ∈ news, WF L r ∧ Bounded r ∧ toMv L r ∈ spanOf L gb := by
+      intro r hr
+      obtain ⟨-, i, j, hij, hj, hp⟩ := sPairRems_mem hs r hr
+      exact pairRem_spec hdiv hgb (List.getElem_mem _) (List.getElem_mem _)
+        (fun s hs' => hsafe gb hpre hgbG i j hij hj s hs') hp
+    refine ⟨hpre.trans (List.prefix_append gb news), ?_, ?_⟩
+    · intro g hg
+      rcases List.mem_append.1 hg with hg | hg
+      · exact hgb g hg
+      · exact ⟨(hnews g hg).1, (hnews g hg).2.1⟩
+    · rw [← hspan]
+      apply le_antisymm
+      · rw [spanOf_le]
+        intro g hg
+        rcases List.mem_append.1 hg with hg | hg
+        · exact mem_spanOf L hg
+        · exact (hnews g hg).2.2
+      · rw [spanOf_le]
+        intro g hg
+        exact mem_spanOf L (List.mem_append_left _ hg)
+
+/-! ### B.5 `ReduceBasis()` keeps the ideal -/
+
+variable (F) in
+/-- the guard holds for every division made by the replacement loop of `ReduceBasis()` over the
+    index list `l`, started on the generator list `g` -/
+def ReduceSafe (o : Order) (Safe : Option Nat → List (BPoly α) → Nat → BPoly α → Prop) :
+    List Nat → List (BPoly α) → Prop
+  | [], _ => True
+  | i :: t, g => Safe (some i) g divFuel (g.getD i []) ∧
+      ∀ r, remByOthers F o g i = some r → ReduceSafe o Safe t (g.set i r)
+
+/-- replacing `g_i` by its remainder modulo the other generators does not change the ideal -/
+theorem remByOthers_span (hdiv : DivSpec L o Safe) {g : List (BPoly α)} (hg : ∀ x ∈ g, WF L x)
+    {i : Nat} (hi : i < g.length) (hsafe : Safe (some i) g divFuel (g.getD i []))
+    {r : BPoly α} (h : remByOthers F o g i = some r) :
+    WF L r ∧ spanOf L (g.set i r) = spanOf L g := by
+  unfold remByOthers at h
+  cases hq : quoRemLoop F o (some i) g divFuel (g.getD i []) (g.map fun _ => []) [] with
+  | none => rw [hq] at h; cases h
+  | some pr =>
+    obtain ⟨qs, r'⟩ := pr
+    rw [hq] at h
+    simp only [Option.map_some, Option.some.injEq] at h
+    subst h
+    have hgi : g.getD i [] = g[i] := by simp [List.getD_eq_getElem?_getD, hi]
+    have wgi : WF L (g.getD i []) := by rw [hgi]; exact hg _ (List.getElem_mem _)
+    obtain ⟨-, wr, -, -, hign⟩ := Gb.quoRemLoop_wf L (fun x hx => (hg x hx).cv) divFuel _ _ [] wgi
+      (fun q hq => by obtain ⟨_, _, rfl⟩ := List.mem_map.1 hq; exact WF_nil L) (WF_nil L) hq
+    have hqi : qs[i]? = some [] := by
+      rw [hign i rfl, List.getElem?_map]; simp [hi]
+    have e := hdiv (some i) g divFuel _ qs r' wgi hg hsafe hq
+    rw [hgi] at e
+    refine ⟨wr, le_antisymm ?_ ?_⟩
+    · rw [spanOf_le]
+      intro x hx
+      rcases List.mem_or_eq_of_mem_set hx with hx | rfl
+      · exact mem_spanOf L hx
+      · have : toMv L x = toMv L g[i] - qdot L qs g := by rw [e, add_sub_cancel_left]
+        rw [this]
+        exact (spanOf L g).sub_mem (mem_spanOf L (List.getElem_mem _)) (qdot_mem_spanOf L qs g)
+    · rw [spanOf_le]
+      intro x hx
+      obtain ⟨j, hj, rfl⟩ := List.getElem_of_mem hx
+      by_cases hji : j = i
+      · subst hji
+        rw [e]
+        refine (spanOf L _).add_mem ?_ ?_
+        · apply qdot_mem
+          intro k q gk hq' hgk
+          by_cases hk : k = j
+          · subst hk
+            rw [hqi] at hq'; cases hq'
+            simp
+          · apply Ideal.mul_mem_left
+            apply mem_spanOf
+            have : (g.set j r')[k]? = some gk := by rw [List.getElem?_set_ne (Ne.symm hk)]; exact hgk
+            exact List.mem_of_getElem? this
+        · apply mem_spanOf
+          have : (g.set j r')[j]? = some r' := by simp [hj]
+          exact List.mem_of_getElem? this
+      · apply mem_spanOf
+        have : (g.set i r')[j]? = some g[j] := by
+          rw [List.getElem?_set_ne (Ne.symm hji)]; simp [hj]
+        exact List.mem_of_getElem? this
+
+/-- C12-4 (reduce part): the replacement loop of `ReduceBasis()` keeps the ideal -/
+theorem reduceLoop_span (hdiv : DivSpec L o Safe) {g0 g' : List (BPoly α)}
+    (hg0 : ∀ x ∈ g0, WF L x) (hsafe : ReduceSafe F o Safe (List.range g0.length) g0)
+    (h : reduceLoop F o g0 = some g') :
+    (∀ x ∈ g', WF L x) ∧ spanOf L g' = spanOf L g0 ∧ g'.length = g0.length := by
+  unfold reduceLoop at h
+  have key : ∀ (l : List Nat) (g : List (BPoly α)), (∀ i ∈ l, i < g.length) → (∀ x ∈ g, WF L x) →
+      ReduceSafe F o Safe l g →
+      l.foldl (fun acc i => match acc with
+        | none => none
+        | some gens => (remByOthers F o gens i).map fun r => gens.set i r) (some g) = some g' →
+      (∀ x ∈ g', WF L x) ∧ spanOf L g' = spanOf L g ∧ g'.length = g.length := by
+    intro l
+    induction l with
+    | nil =>
+      intro g _ hw _ hf
+      simp only [List.foldl_nil, Option.some.injEq] at hf
+      subst hf; exact ⟨hw, rfl, rfl⟩
+    | cons i t ih =>
+      intro g hl hw hs hf
+      rw [List.foldl_cons] at hf
+      cases hr : remByOthers F o g i with
+      | none =>
+        simp only [hr, Option.map_none] at hf
+        have : ∀ (t : List Nat), t.foldl (fun acc i => match acc with
+            | none => none
+            | some gens => (remByOthers F o gens i).map fun r => gens.set i r)
+            (none : Option (List (BPoly α))) = none := by
+          intro t; induction t with
+          | nil => rfl
+          | cons _ _ ih => rw [List.foldl_cons]; exact ih
+        rw [this] at hf; cases hf
+      | some r =>
+        simp only [hr, Option.map_some] at hf
+        obtain ⟨wr, hsp⟩ := remByOthers_span hdiv hw (hl i List.mem_cons_self) hs.1 hr
+        have hw' : ∀ x ∈ g.set i r, WF L x := by
+          intro x hx
+          rcases List.mem_or_eq_of_mem_set hx with hx | rfl
+          · exact hw x hx
+          · exact wr
+        obtain ⟨c1, c2, c3⟩ := ih (g.set i r)
+          (fun j hj => by rw [List.length_set]; exact hl j (List.mem_cons_of_mem _ hj)) hw'
+          (hs.2 r hr) hf
+        exact ⟨c1, by rw [c2, hsp], by rw [c3, List.length_set]⟩
+  exact key _ g0 (fun i hi => List.mem_range.1 hi) hg0 hsafe h
+
+end PartB
+
+/-! ### B.6 quotient rings `F[X,Y]/I` -/
+
+section Quot
+variable {K : Type} [Field K]
+
+/-- normal form with respect to the list `gs`: no exponent of `r` is divisible by the leading
+    exponent of an element of `gs` -/
+def IsNF (o : Order) (gs : List (BPoly α)) (r : BPoly α) : Prop :=
+  KeysIn (fun d => ∀ g ∈ gs, subDegs d (ld o g) = none) r
+
+/-- a successful `(*Polynomial).reduce` in a quotient ring is a terminated division run -/
+theorem reduceIn_run {R : Ring α} {gs : List (BPoly α)} (hR : R.ideal = some gs) {f r : BPoly α}
+    (h : reduceIn R f = some r) :
+    ∃ qs, quoRemLoop R.F R.ord none gs divFuel f (gs.map fun _ => []) [] = some (qs, r) := by
+  unfold reduceIn at h
+  rw [hR] at h
+  simp only [rem, quoRem] at h
+  split at h
+  · rename_i r0 hr0
+    split at hr0
+    · cases hr0
+    · rename_i r1 hr1
+      split at hr1
+      · cases hr1
+      · cases hr1
+        cases hr0
+        cases hq : quoRemLoop R.F R.ord none gs divFuel f (gs.map fun _ => []) [] with
+        | none => rw [hq] at h; cases h
+        | some pr =>
+          rw [hq] at h
+          simp only [Option.map_some, Option.some.injEq] at h
+          exact ⟨pr.1, by rw [← h]⟩
+  · cases h
+
+/-- the class of a polynomial modulo the ideal generated by `gs` -/
+noncomputable def cls {F : FOps α} (L : Lawful F K) (gs : List (BPoly α))
+    (p : AddMonoidAlgebra K (ℕ × ℕ)) : AddMonoidAlgebra K (ℕ × ℕ) ⧸ spanOf L gs :=
+  Ideal.Quotient.mk (spanOf L gs) p
+
+theorem cls_eq_iff {F : FOps α} (L : Lawful F K) (gs : List (BPoly α))
+    (p q : AddMonoidAlgebra K (ℕ × ℕ)) : cls L gs p = cls L gs q ↔ p - q ∈ spanOf L gs :=
+  Ideal.Quotient.eq
+
+/-- a quotient ring whose stored generator list is `gs`, over a lawful coefficient record, with
+    the two division hypotheses -/
+structure QuotCtx (R : Ring α) (L : Lawful R.F K)
+    (Safe : Option Nat → List (BPoly α) → Nat → BPoly α → Prop) (gs : List (BPoly α)) : Prop where
+  ideal_eq : R.ideal = some gs
+  wf : ∀ g ∈ gs, WF L g
+  hdiv : DivSpec L R.ord Safe
+  hrem : RemSpec L R.ord Safe
+
+variable {R : Ring α} {L : Lawful R.F K}
+  {Safe : Option Nat → List (BPoly α) → Nat → BPoly α → Prop} {gs : List (BPoly α)}
+
+/-- the value is a well-formed normal form with word-size exponents -/
+def GoodNF (L : Lawful R.F K) (gs : List (BPoly α)) (r : BPoly α) : Prop :=
+  WF L r ∧ Bounded r ∧ IsNF R.ord gs r
+
+/-- C13-1: `reduce` returns a normal form in the class of its argument -/
+theorem QuotCtx.reduceIn_spec (Q : QuotCtx R L Safe gs) {f r : BPoly α} (hf : WF L f)
+    (hs : Safe none gs divFuel f) (h : reduceIn R f = some r) :
+    WF L r ∧ (Bounded f → Bounded r) ∧ toMv L f - toMv L r ∈ spanOf L gs ∧ IsNF R.ord gs r := by
+  obtain ⟨qs, hq⟩ := reduceIn_run Q.ideal_eq h
+  obtain ⟨-, wr, -, br, -⟩ := Gb.quoRemLoop_wf L (fun x hx => (Q.wf x hx).cv) divFuel f _ [] hf
+    (fun q hq => by obtain ⟨_, _, rfl⟩ := List.mem_map.1 hq; exact WF_nil L) (WF_nil L) hq
+  have e := Q.hdiv none gs divFuel f qs r hf Q.wf hs hq
+  refine ⟨wr, fun bf => br bf Bounded_nil, ?_, ?_⟩
+  · rw [e, add_sub_cancel_right]; exact qdot_mem_spanOf L qs gs
+  · intro d hd g hg
+    obtain ⟨j, hj, rfl⟩ := List.getElem_of_mem hg
+    exact Q.hrem none gs divFuel f qs r hf Q.wf hs hq d hd j _ (by simp [hj]) (by simp)
+
+theorem QuotCtx.reduceIn_good (Q : QuotCtx R L Safe gs) {f r : BPoly α} (hf : WF L f)
+    (bf : Bounded f) (hs : Safe none gs divFuel f) (h : reduceIn R f = some r) :
+    GoodNF L gs r ∧ cls L gs (toMv L r) = cls L gs (toMv L f) := by
+  obtain ⟨c1, c2, c3, c4⟩ := Q.reduceIn_spec hf hs h
+  exact ⟨⟨c1, c2 bf, c4⟩, ((cls_eq_iff L gs _ _).2 c3).symm⟩
+
+variable (R Safe gs) in
+/-- the guard holds for the reduction of the product of `x` and `y` -/
+def TimesSafe (x y : BPoly α) : Prop :=
+  ∀ h, mulNoReduce R.F x y = some h → Safe none gs divFuel h
+
+theorem QuotCtx.times_spec (Q : QuotCtx R L Safe gs) {x y r : BPoly α} (hx : WF L x) (hy : WF L y)
+    (by' : Bounded y) (hs : TimesSafe R Safe gs x y) (h : times R x y = .ok (some r)) :
+    GoodNF L gs r ∧ cls L gs (toMv L r) = cls L gs (toMv L x) * cls L gs (toMv L y) := by
+  obtain ⟨p, hp, hr⟩ := times_ok_iff.1 h
+  obtain ⟨wp, tp⟩ := Gb.mulNoReduce_spec2 L hx.cv hy.cv by' hp
+  obtain ⟨c1, c2⟩ := Q.reduceIn_good wp (Bounded_mulNoReduce hp) (hs p hp) hr
+  refine ⟨c1, ?_⟩
+  rw [c2, tp]
+  exact map_mul _ _ _
+
+variable (R Safe gs) in
+/-- the guard holds for every reduction made by the square-and-multiply loop of `Pow` -/
+def PowSafe : Nat → Nat → BPoly α → BPoly α → Prop
+  | 0, _, _, _ => True
+  | fuel + 1, n, out, g =>
+    n ≠ 0 → (n % 2 = 1 → TimesSafe R Safe gs out g) ∧
+      (n / 2 ≠ 0 → TimesSafe R Safe gs g g ∧
+        ∀ o' g2, (if n % 2 = 1 then times R out g else .ok (some out)) = .ok (some o') →
+          times R g g = .ok (some g2) → PowSafe fuel (n / 2) o' g2)
+
+theorem QuotCtx.powLoop_spec (Q : QuotCtx R L Safe gs) :
+    ∀ (fuel n : Nat) (out g r : BPoly α), GoodNF L gs out → WF L g → Bounded g →
+      PowSafe R Safe gs fuel n out g → powLoop R fuel n out g = .ok (some r) →
+      GoodNF L gs r ∧ cls L gs (toMv L r) = cls L gs (toMv L out) * cls L gs (toMv L g) ^ n := by
+  intro fuel
+  induction fuel with
+  | zero => intro n out g r _ _ _ _ h; simp [powLoop] at h
+  | succ m ih =>
+    intro n out g r go wg bg hs h
+    rw [powLoop_succ] at h
+    by_cases hn : n = 0
+    · rw [if_pos hn] at h
+      cases h
+      exact ⟨go, by rw [hn, pow_zero, mul_one]⟩
+    · rw [if_neg hn] at h
+      obtain ⟨hs1, hs2⟩ := hs hn
+      split at h
+      · cases h
+      · cases h
+      · rename_i o' ho
+        have st1 : GoodNF L gs o' ∧
+            cls L gs (toMv L o') = cls L gs (toMv L out) * cls L gs (toMv L g) ^ (n % 2) := by
+          by_cases hodd : n % 2 = 1
+          · rw [if_pos hodd] at ho
+            rw [hodd, pow_one]
+            exact Q.times_spec go.1 wg bg (hs1 hodd) ho
+          · rw [if_neg hodd] at ho
+            cases ho
+            have : n % 2 = 0 := by omega
+            exact ⟨go, by rw [this, pow_zero, mul_one]⟩
+        by_cases hhalf : n / 2 = 0
+        · rw [if_pos hhalf] at h
+          cases h
+          have h1 : n % 2 = n := by omega
+          rw [h1] at st1
+          exact st1
+        · rw [if_neg hhalf] at h
+          obtain ⟨hs3, hs4⟩ := hs2 hhalf
+          split at h
+          · cases h
+          · cases h
+          · rename_i g2 hg2
+            obtain ⟨gg2, tg2⟩ := Q.times_spec wg wg bg hs3 hg2
+            obtain ⟨c1, c2⟩ := ih (n / 2) o' g2 r st1.1 gg2.1 gg2.2.1 (hs4 o' g2 ho hg2) h
+            refine ⟨c1, ?_⟩
+            rw [c2, st1.2, tg2, ← pow_two, ← pow_mul, mul_assoc, ← pow_add]
+            congr 2
+            omega
+
+theorem Bounded_one : Bounded ([((0, 0), R.F.one)] : BPoly α) := by
+  intro dc hdc
+  simp only [List.mem_singleton] at hdc
+  subst hdc
+  exact ⟨by norm_num, by norm_num⟩
+
+theorem QuotCtx.pow_spec (Q : QuotCtx R L Safe gs) {x r : BPoly α} {n : Nat} (hx : WF L x)
+    (bx : Bounded x) (hs1 : Safe none gs divFuel [((0, 0), R.F.one)])
+    (hs : ∀ o', reduceIn R [((0, 0), R.F.one)] = some o' → PowSafe R Safe gs 70 n o' x)
+    (h : pow R x n = .ok (some r)) :
+    GoodNF L gs r ∧ cls L gs (toMv L r) = cls L gs (toMv L x) ^ n := by
+  rw [pow_eq] at h
+  split at h
+  · rename_i o' ho
+    obtain ⟨g1, t1⟩ := Q.reduceIn_good (WF_one L) Bounded_one hs1 ho
+    obtain ⟨c1, c2⟩ := Q.powLoop_spec 70 n o' x r g1 hx bx (hs o' ho) h
+    refine ⟨c1, ?_⟩
+    rw [c2, t1, toMv_one]
+    show Ideal.Quotient.mk _ 1 * _ = _
+    rw [map_one, one_mul]
+  · cases h
+
+/-! ### expressions over a quotient ring -/
+
+/-- expressions built from the constructors (a coefficient map embedded with reduction) and
+    `Plus`, `Minus`, `Times`/`Mult`, `Pow` -/
+inductive QExpr (α : Type) where
+  | leaf (f : BPoly α)
+  | add (a b : QExpr α)
+  | sub (a b : QExpr α)
+  | mul (a b : QExpr α)
+  | pow (a : QExpr α) (n : Nat)
+
+/-- the value computed by the library in the quotient ring `R` (`none`: an error status or the
+    model's fuel) -/
+def evalQ (R : Ring α) : QExpr α → Option (BPoly α)
+  | .leaf f => reduceIn R f
+  | .add a b => match evalQ R a, evalQ R b with
+    | some x, some y => some (BPoly.add R.F x y)
+    | _, _ => none
+  | .sub a b => match evalQ R a, evalQ R b with
+    | some x, some y => some (BPoly.sub R.F x y)
+    | _, _ => none
+  | .mul a b => match evalQ R a, evalQ R b with
+    | some x, some y => (match times R x y with | .ok r => r | .error _ => none)
+    | _, _ => none
+  | .pow a n => match evalQ R a with
+    | some x => (match BPoly.pow R x n with | .ok r => r | .error _ => none)
+    | none => none
+
+/-- the same expression evaluated in `K[X,Y]` -/
+noncomputable def evalP (L : Lawful R.F K) : QExpr α → AddMonoidAlgebra K (ℕ × ℕ)
+  | .leaf f => toMv L f
+  | .add a b => evalP L a + evalP L b
+  | .sub a b => evalP L a - evalP L b
+  | .mul a b => evalP L a * evalP L b
+  | .pow a n => evalP L a ^ n
+
+variable (R Safe gs) in
+/-- leaves are well-formed with word-size exponents, and the guard holds for every reduction made
+    while the expression is evaluated -/
+def QExpr.Ok (L : Lawful R.F K) : QExpr α → Prop
+  | .leaf f => WF L f ∧ Bounded f ∧ Safe none gs divFuel f
+  | .add a b => a.Ok L ∧ b.Ok L
+  | .sub a b => a.Ok L ∧ b.Ok L
+  | .mul a b => a.Ok L ∧ b.Ok L ∧
+      ∀ x y, evalQ R a = some x → evalQ R b = some y → TimesSafe R Safe gs x y
+  | .pow a n => a.Ok L ∧ Safe none gs divFuel [((0, 0), R.F.one)] ∧
+      ∀ x o', evalQ R a = some x → reduceIn R [((0, 0), R.F.one)] = some o' →
+        PowSafe R Safe gs 70 n o' x
+
+/-- C13-3: the value computed in the quotient ring is a normal form in the class of the plain
+    expression -/
+theorem QuotCtx.evalQ_spec (Q : QuotCtx R L Safe gs) (e : QExpr α) (he : e.Ok R Safe gs L)
+    {r : BPoly α} (h : evalQ R e = some r) :
+    GoodNF L gs r ∧ cls L gs (toMv L r) = cls L gs (evalP L e) := by
+  induction e generalizing r with
+  | leaf f => exact Q.reduceIn_good he.1 he.2.1 he.2.2 h
+  | add a b iha ihb =>
+    simp only [evalQ] at h
+    split at h
+    · rename_i x y hx hy
+      cases h
+      obtain ⟨⟨wx, bx, nx⟩, tx⟩ := iha he.1 hx
+      obtain ⟨⟨wy, by', ny⟩, ty⟩ := ihb he.2 hy
+      refine ⟨⟨WF_add L wx wy.cv, ?_, KeysIn_add nx ny⟩, ?_⟩
+      · rw [Bounded_iff_KeysIn] at bx by' ⊢; exact KeysIn_add bx by'
+      · rw [toMv_add L wx wy.cv]
+        show Ideal.Quotient.mk _ (_ + _) = Ideal.Quotient.mk _ (_ + _)
+        rw [map_add, map_add]
+        exact congrArg₂ _ tx ty
+    · cases h
+  | sub a b iha ihb =>
+    simp only [evalQ] at h
+    split at h
+    · rename_i x y hx hy
+      cases h
+      obtain ⟨⟨wx, bx, nx⟩, tx⟩ := iha he.1 hx
+      obtain ⟨⟨wy, by', ny⟩, ty⟩ := ihb he.2 hy
+      refine ⟨⟨WF_sub L wx wy.cv, ?_, KeysIn_sub nx ny⟩, ?_⟩
+      · rw [Bounded_iff_KeysIn] at bx by' ⊢; exact KeysIn_sub bx by'
+      · rw [toMv_sub L wx wy.cv]
+        show Ideal.Quotient.mk _ (_ - _) = Ideal.Quotient.mk _ (_ - _)
+        rw [map_sub, map_sub]
+        exact congrArg₂ _ tx ty
+    · cases h
+  | mul a b iha ihb =>
+    simp only [evalQ] at h
+    split at h
+    · rename_i x y hx hy
+      obtain ⟨⟨wx, bx, nx⟩, tx⟩ := iha he.1 hx
+      obtain ⟨⟨wy, by', ny⟩, ty⟩ := ihb he.2.1 hy
+      split at h
+      · rename_i r0 hr0
+        subst h
+        obtain ⟨c1, c2⟩ := Q.times_spec wx wy by' (he.2.2 x y hx hy) hr0
+        refine ⟨c1, ?_⟩
+        rw [c2, tx, ty]
+        exact (map_mul _ _ _).symm
+      · cases h
+    · cases h
+  | pow a n iha =>
+    simp only [evalQ] at h
+    split at h
+    · rename_i x hx
+      obtain ⟨⟨wx, bx, nx⟩, tx⟩ := iha he.1 hx
+      split at h
+      · rename_i r0 hr0
+        subst h
+        obtain ⟨c1, c2⟩ := Q.pow_spec wx bx he.2.1 (fun o' ho => he.2.2 x o' hx ho) hr0
+        refine ⟨c1, ?_⟩
+        rw [c2, tx]
+        exact (map_pow _ _ _).symm
+      · cases h
+    · cases h
+
+end Quot
 
 end BPoly
 end Algobra
